@@ -60,6 +60,7 @@ impl Domain for SeqDomain {
             nontrivial: (self.nontrivial)(&run, &case),
             classes,
             excluded: vec![],
+            counters: vec![],
         }
     }
 }
